@@ -34,8 +34,10 @@ import Rbacx.Run.C02_whole
   action / listing '*' through the `seen` set and sorting stably by identity gives the rules filtered by `isCandidate` in document
   order.  What is missing is the simulation of the five generated loops by these lemmas (`forLoop_inv`, `forLoop_fold_enc`), the
   bucket fold and the final `evaluate_src` step; until then the index / bucket part of `compile` is tied to the model by the
-  differential runs only (`translated_whole_vs_python` in props/c03.py: the evaluated translation vs the real `compile(policy)(env)`,
-  and the model vs the real engine).
+  differential runs (`translated_whole_vs_python` in props/c03.py: the evaluated translation vs the real `compile(policy)(env)`,
+  and the model vs the real engine) and by three WITNESSES evaluated by the kernel on the generated text (`witness_document_order`,
+  `witness_unmatched_bucket`, `witness_most_specific_first`: the sort, the `matched` flags, the order of the selection loop) — not
+  proofs for all inputs, but a change of one of these decisions makes this obligation fail.
 -/
 set_option linter.unusedSimpArgs false
 namespace Rbacx.Translated
@@ -69,6 +71,46 @@ theorem compile_decide_algorithm_error (cx : CondCtx) (c : Consts) (policy env :
   simp only [containsE_dict_key hpol, bind_ok, truthy_bool, hsingle, Bool.false_eq_true, if_false, getE_isDict hpol, lowerE_por, hc, hlow,
     Except.map, bind_error, and_self]
 
+/-! ### witnesses on the generated text
+
+  NOT proofs for all inputs: three concrete documents, evaluated by the kernel on the CURRENT text of `compile` (and on the model), one
+  for each decision the index / bucket part takes that the partial theorems above do not cover.  A change of the source that alters
+  one of these decisions makes this obligation fail (the check then searches for a failing input on the real engine). -/
+
+private def wrule (rid eff : String) (acts : List String) (res : List (String × PyVal)) : PyVal :=
+  .dict [("id", .str rid), ("effect", .str eff), ("actions", .list (acts.map .str)), ("resource", .dict res)]
+
+private def wenv : PyVal :=
+  .dict [("action", .str "read"), ("resource", .dict [("type", .str "doc"), ("id", .str "1"), ("attrs", .dict [])])]
+
+private def wpol (algo : String) (rules : List PyVal) : PyVal := .dict [("algorithm", .str algo), ("rules", .list rules)]
+
+private def wout (d reason rid : String) : Except CondErr PyVal :=
+  .ok (.dict [("decision", .str d), ("reason", .str reason), ("rule_id", .str rid), ("last_rule_id", .str rid), ("obligations", .list [])])
+
+/-- document order survives the index: a '*' rule BEFORE a named-action rule decides under first-applicable (the sort; F3) -/
+theorem witness_document_order (o : Oracle) (c : Consts) :
+    let pol := wpol "first-applicable" [wrule "star" "deny" ["*"] [("type", .str "doc")], wrule "named" "permit" ["read"] [("type", .str "doc")]]
+    let cx : CondCtx := { o, env := wenv, checker := none }
+    Src.compile_decide o noAttr (parseDtExt o) (relExt cx) pol wenv 40 = wout "deny" "explicit_deny" "star" ∧
+      (compiledDecide cx c pol).map encRaw = wout "deny" "explicit_deny" "star" := ⟨rfl, rfl⟩
+
+/-- a more specific rule aimed at ANOTHER resource does not shadow the generic rule (the `matched` flags; F2) -/
+theorem witness_unmatched_bucket (o : Oracle) (c : Consts) :
+    let pol := wpol "permit-overrides" [wrule "generic" "permit" ["read"] [("type", .str "doc")],
+                                        wrule "other" "deny" ["read"] [("type", .str "doc"), ("id", .str "2")]]
+    let cx : CondCtx := { o, env := wenv, checker := none }
+    Src.compile_decide o noAttr (parseDtExt o) (relExt cx) pol wenv 40 = wout "permit" "matched" "generic" ∧
+      (compiledDecide cx c pol).map encRaw = wout "permit" "matched" "generic" := ⟨rfl, rfl⟩
+
+/-- of two eligible buckets the MORE specific one is taken (the order of the selection loop) -/
+theorem witness_most_specific_first (o : Oracle) (c : Consts) :
+    let pol := wpol "permit-overrides" [wrule "generic" "permit" ["read", "*"] [("type", .str "doc")],
+                                        wrule "mine" "deny" ["*", "read"] [("type", .str "doc"), ("id", .str "1")]]
+    let cx : CondCtx := { o, env := wenv, checker := none }
+    Src.compile_decide o noAttr (parseDtExt o) (relExt cx) pol wenv 40 = wout "deny" "explicit_deny" "mine" ∧
+      (compiledDecide cx c pol).map encRaw = wout "deny" "explicit_deny" "mine" := ⟨rfl, rfl⟩
+
 /- The full statement (not yet proved; see the header):
 
 theorem compile_decide_src (cx : CondCtx) (c : Consts) (policy : PyVal) (fuel : Nat)
@@ -85,3 +127,6 @@ end Rbacx.Translated
 #print axioms Rbacx.Translated.compile_decide_set_delegates
 #print axioms Rbacx.Translated.compile_decide_set
 #print axioms Rbacx.Translated.compile_decide_algorithm_error
+#print axioms Rbacx.Translated.witness_document_order
+#print axioms Rbacx.Translated.witness_unmatched_bucket
+#print axioms Rbacx.Translated.witness_most_specific_first
